@@ -1,6 +1,10 @@
 package props
 
-import "github.com/avos-io/goat/vrt/explore"
+import (
+	"strings"
+
+	"github.com/avos-io/goat/vrt/explore"
+)
 
 func init() { register("C06", c06) }
 
@@ -14,8 +18,8 @@ func c06(tier string) []*explore.Scenario {
 func c14idle(tier string) []*explore.Scenario {
 	var out []*explore.Scenario
 	for _, sc := range c14(tier) {
-		if !sc.Once {
-			out = append(out, sc)
+		if !sc.Once && strings.Contains(sc.Name, "idle-fixpoint") {
+			out = append(out, sc) // (not the batches, which run without a wire tap, nor C14's copies of the operation-sequence families)
 		}
 	}
 	return out
